@@ -382,7 +382,7 @@ pub fn check_stream(bytes: &[u8], expect: Option<&Expect>, rng: &mut Rng) -> Out
 /// overflow, runaway allocation, endless loop) is a C05 outcome, not the end of the harness.
 /// Only used to find the culprit after the in-process run was killed.
 pub fn check_stream_isolated(bytes: &[u8], seed: u64) -> Outcome {
-    let r = isolated(6 << 30, 60, || {
+    let r = isolated(6 << 30, 20, || {
         let mut rng = Rng::new(seed);
         let o = check_stream(bytes, None, &mut rng);
         outcome_json("x", "x", bytes, &o, false).to_string().into_bytes()
@@ -426,13 +426,14 @@ pub fn replay(args: &Args) -> i32 {
     let lines: Vec<String> = std::io::BufReader::new(f).lines().map(|l| l.unwrap()).filter(|l| !l.trim().is_empty()).collect();
     let out = Mutex::new(std::io::BufWriter::new(std::fs::File::create(args.req("out")).unwrap()));
     let threads = args.num("threads", 8) as usize;
-    let limit = args.num("limit", 60);
+    let isolate = args.get("isolate").is_some();
+    // (in isolation the child's CPU limit ends a runaway call; the watchdog is only the last resort)
+    let limit = if isolate { 900 } else { args.num("limit", 60) };
     let out_path = args.req("out").to_string();
     let wd = Watchdog::start(threads, std::time::Duration::from_secs(limit), Box::new(move |id| {
         let mut f = std::fs::OpenOptions::new().append(true).open(&out_path).unwrap();
         writeln!(f, "{}", json!({"kind":"timeout","id":id})).unwrap();
     }));
-    let isolate = args.get("isolate").is_some();
     par_for(lines.len(), if isolate { 1 } else { threads }, |i, w| {
         let case: Value = serde_json::from_str(&lines[i]).unwrap();
         let id = format!("g{}", i);
@@ -600,12 +601,14 @@ pub fn record(args: &Args) -> i32 {
         writeln!(f, "{}", json!({"kind":"timeout","id":id})).unwrap();
     }));
     let isolate = args.get("isolate").is_some();
+    let died: Mutex<std::collections::HashSet<usize>> = Mutex::new(std::collections::HashSet::new());
     par_for(streams.len(), if isolate { 1 } else { threads }, |i, w| {
         let id = format!("d{}", i);
-        wd.enter(w, &id);
+        if !isolate { wd.enter(w, &id); }
         let mut r = Rng::new(seed.wrapping_mul(7919) + i as u64);
         let o = if isolate { check_stream_isolated(&streams[i].bytes, seed.wrapping_mul(7919) + i as u64) } else { check_stream(&streams[i].bytes, None, &mut r) };
         wd.leave(w);
+        if o.lib == "died" { died.lock().unwrap().insert(i); }
         let j = outcome_json(&id, &streams[i].label, &streams[i].bytes, &o, !o.viol.is_empty());
         let mut g = out.lock().unwrap();
         writeln!(g, "{}", j).unwrap();
@@ -615,11 +618,11 @@ pub fn record(args: &Args) -> i32 {
         let mut t = std::io::BufWriter::new(std::fs::File::create(tp).unwrap());
         let mut cases = std::io::BufWriter::new(std::fs::File::create(format!("{}.cases", tp)).unwrap());
         let mut k = 0;
-        for d in streams.iter() {
+        for (di, d) in streams.iter().enumerate() {
             if k >= ntraces {
                 break;
             }
-            if d.bytes.len() > tracemax {
+            if d.bytes.len() > tracemax || died.lock().unwrap().contains(&di) {
                 continue;
             }
             writeln!(cases, "{}", json!({"run":k,"label":d.label,"hex":hex(&d.bytes)})).unwrap();
